@@ -863,6 +863,10 @@ impl Engine for C11 {
                 p_mut(2, 12),
             ));
         }
+        v.push(Phase::new(
+            "corpus with one token of the full alphabet inserted at one site",
+            p_ins(if thorough { 100_000 } else { 40 }),
+        ));
         v.push(Phase::new("nesting families", p_nest(thorough)));
         v
     }
